@@ -21,6 +21,7 @@ type C16 struct {
 	Chains []string
 	User   sdk.AccAddress
 	Stranger sdk.AccAddress
+	Base   uint64 // batch nonces already used on every chain (genesis field LastOutgoingBatchTxNonce)
 }
 
 func NewC16() *C16 {
@@ -31,6 +32,9 @@ func NewC16() *C16 {
 func (c *C16) ID() string             { return "C16" }
 func (c *C16) Setup(in *hub.Instance) {}
 func (c *C16) SeedPaths() [][]engine.Op {
+	if c.Base > 0 {
+		return [][]engine.Op{{engine.OpN("MkBatch", "ethereum"), engine.OpN("MkBatch", "ethereum"), engine.OpN("MkBatch", "ethereum")}}
+	}
 	return [][]engine.Op{{}, {engine.OpN("MkBatch", "ethereum"), engine.OpN("MkBatch", "bsc"), engine.OpN("MkCall", "ethereum"), engine.OpN("MkCall", "bsc")},
 		// three batches of one token (nonces 1..3) and one of another token (nonce 4) on ethereum
 		{engine.OpN("MkBatch", "ethereum"), engine.OpN("MkBatch", "ethereum"), engine.OpN("MkBatch", "ethereum"), engine.OpN("MkBatch2", "ethereum")}}
@@ -40,6 +44,9 @@ func (c *C16) Genesis() hub.Genesis {
 	g.Staking[2].Power = 7
 	g.Staking[3].Power = 6
 	g.Staking[3].Unbonding = true
+	for _, es := range g.Hub.ExternalStates {
+		es.LastOutgoingBatchTxNonce = c.Base
+	}
 	return g
 }
 
@@ -155,14 +162,14 @@ func (c *C16) conf(in *hub.Instance, chain string, ref int64, signerExt string, 
 		}
 		return &mhubtypes.BatchTxConfirmation{ExternalTokenId: EthEth, BatchNonce: found.BatchNonce, ExternalSigner: signerExt, Signature: sign(found)}, found
 	case 2, 3, 5, 6:
-		n := uint64(1)
+		n := c.Base + 1
 		switch ref {
 		case 3:
-			n = 9
+			n = c.Base + 9
 		case 5:
-			n = 2
+			n = c.Base + 2
 		case 6:
-			n = 3
+			n = c.Base + 3
 		}
 		otx := get(mhubtypes.MakeBatchTxKey(ch, tokenOn(chain), n))
 		return &mhubtypes.BatchTxConfirmation{ExternalTokenId: tokenOn(chain), BatchNonce: n, ExternalSigner: signerExt, Signature: sign(otx)}, otx
@@ -349,7 +356,7 @@ func (c *C16) queries(in *hub.Instance, g *c16Ghost, st *engine.Step) {
 			tok string
 			n   uint64
 		}
-		brefs := []bref{{tokenOn(chain), 9}}
+		brefs := []bref{{tokenOn(chain), c.Base + 9}}
 		in.Hub.IterateOutgoingTxsByType(ctx, ch, mhubtypes.BatchTxPrefixByte, func(_ []byte, o mhubtypes.OutgoingTx) bool {
 			b := o.(*mhubtypes.BatchTx)
 			brefs = append(brefs, bref{b.ExternalTokenId, b.BatchNonce})
@@ -439,13 +446,17 @@ func (c *C16) queries(in *hub.Instance, g *c16Ghost, st *engine.Step) {
 }
 
 func init() {
-	Register("C16", BFSRunner(func(tier string) (Spec, engine.Config, []string) {
-		cfg := engine.Config{MaxDepth: 3, Deadline: 70 * time.Second, ReplayLeaf: 30}
+	Register("C16", MultiRunner(func(tier string) ([]MultiCase, []string) {
+		cfg := engine.Config{MaxDepth: 3, Deadline: 60 * time.Second, ReplayLeaf: 30}
 		if tier == "thorough" {
-			cfg = engine.Config{MaxDepth: 5, Deadline: 20 * time.Minute, ReplayLeaf: 200}
+			cfg = engine.Config{MaxDepth: 5, Deadline: 15 * time.Minute, ReplayLeaf: 200}
 		}
-		return NewC16(), cfg, []string{
+		hi := NewC16()
+		hi.Base = 253 // the next batches get nonces 254, 255, 256 (a byte boundary of the big-endian nonce in every store index)
+		hi.Chains = []string{"ethereum"}
+		return []MultiCase{{Name: "fresh chain", Spec: NewC16(), Cfg: cfg}, {Name: "batch nonces 254..256", Spec: hi, Cfg: cfg}}, []string{
 			"validators A, B bonded, C unbonded, D unbonding (all with registered keys); batches: up to three of one token plus one of a second token on ethereum; signers: validator account, orchestrator, stranger; tx refs: existing/unknown signer set, existing/unknown batch, contract call; claimed external signer own/other's; a confirmation built for the other chain's batch; duplicates by repetition",
+			"second case: the chain has already issued 253 batch nonces (genesis field LastOutgoingBatchTxNonce), so that the next batches straddle a byte boundary of the nonce inside the signature store keys",
 			"contract calls are created through keeper.CreateContractCallTx (no message creates them)",
 			"signature validity is not part of C16 as stated (SubmitTxConfirmation ignores ValidateEthereumSignature); honest signatures are used",
 			"only-if: a successful confirmation must satisfy the conditions; rejecting one is never a violation",
